@@ -55,12 +55,16 @@ pub struct Scripted {
     pend_every: usize,
     polls: usize,
     pended: bool,
+    /// at every read call that is answered: (bytes delivered so far, bytes written so far) — what a
+    /// client that stops sending HERE and waits has received
+    marks: Arc<Mutex<Vec<(usize, usize)>>>,
+    delivered: usize,
 }
 
 impl Scripted {
     fn plain(segs: &[Vec<u8>], written: Arc<Mutex<Vec<u8>>>, fail_write_at: Option<usize>) -> Scripted {
         Scripted { segs: segs.iter().cloned().collect(), written, fail_write_at, writes: 0, script: VecDeque::new(), read_err_at: None,
-            reads: Arc::new(AtomicUsize::new(0)), pend_every: 0, polls: 0, pended: false }
+            reads: Arc::new(AtomicUsize::new(0)), pend_every: 0, polls: 0, pended: false, marks: Arc::new(Mutex::new(Vec::new())), delivered: 0 }
     }
     /// true = this poll answers Pending (the task is woken at once and polls again)
     fn pend(&mut self, cx: &mut Context<'_>) -> bool {
@@ -90,12 +94,18 @@ impl AsyncRead for Scripted {
         while matches!(self.segs.front(), Some(s) if s.is_empty()) {
             self.segs.pop_front();
         }
+        {
+            let w = self.written.lock().unwrap().len();
+            let d = self.delivered;
+            self.marks.lock().unwrap().push((d, w));
+        }
         if self.segs.front().is_some() && self.read_err_at == Some(self.reads.load(SeqCst)) {
             return Poll::Ready(Err(std::io::Error::new(std::io::ErrorKind::ConnectionReset, "connection reset by peer")));
         }
         if let Some(mut s) = self.segs.pop_front() {
             let n = s.len().min(buf.remaining());
             buf.put_slice(&s[..n]);
+            self.delivered += n;
             self.reads.fetch_add(1, SeqCst);
             if n < s.len() {
                 let rest = s.split_off(n);
@@ -181,6 +191,8 @@ pub struct ConnRun {
     pub end: End,
     /// read calls that returned data (only counted by `run_scripted`)
     pub reads: usize,
+    /// (bytes delivered, bytes written) at every read call of the handler (only by `run`)
+    pub marks: Vec<(usize, usize)>,
 }
 
 pub struct Runner {
@@ -195,6 +207,7 @@ impl Runner {
     pub fn run(&self, cfg: &Cfg, segs: &[Vec<u8>]) -> ConnRun {
         let written = Arc::new(Mutex::new(Vec::new()));
         let stream = Scripted::plain(segs, written.clone(), None);
+        let marks = stream.marks.clone();
         let ccfg = cfg.real();
         let r = catch_unwind(AssertUnwindSafe(|| {
             self.rt.block_on(async move {
@@ -208,7 +221,8 @@ impl Runner {
             Ok(Ok(())) => End::Eof,
         };
         let w = written.lock().unwrap().clone();
-        ConnRun { written: w, end, reads: 0 }
+        let m = marks.lock().unwrap().clone();
+        ConnRun { written: w, end, reads: 0, marks: m }
     }
 }
 
@@ -231,7 +245,7 @@ impl Runner {
             Ok(Ok(())) => End::Eof,
         };
         let w = written.lock().unwrap().clone();
-        ConnRun { written: w, end, reads: 0 }
+        ConnRun { written: w, end, reads: 0, marks: Vec::new() }
     }
 }
 
@@ -260,7 +274,7 @@ impl Runner {
             Ok(Ok(())) => End::Eof,
         };
         let w = written.lock().unwrap().clone();
-        ConnRun { written: w, end, reads: reads.load(SeqCst) }
+        ConnRun { written: w, end, reads: reads.load(SeqCst), marks: Vec::new() }
     }
 }
 
@@ -317,9 +331,26 @@ pub fn header_len() -> usize {
     std::env::var("VERIF_C04_HEADER_LEN").ok().and_then(|v| v.parse().ok()).unwrap_or(14)
 }
 
+/// `check_acl_permission` takes the base name of an unknown command with `parts[0]` (panics on a name
+/// without a non-white-space character) or with `parts.first()` (after the fix): read from the SOURCE
+/// by ./check (tools/props/C04.json source_constants) — the model has the flag `nameGuard`
+pub fn name_guarded() -> bool {
+    std::env::var("VERIF_C04_NAME_GUARD").map(|v| v.contains("first")).unwrap_or(false)
+}
+
+/// the `<headerLen>` token of the op lines: `14` or `14+g` (guarded)
+pub fn hl_token() -> String {
+    if name_guarded() { format!("{}+g", header_len()) } else { header_len().to_string() }
+}
+
+/// `str::split_whitespace` yields nothing for this command name (after from_utf8_lossy / to_uppercase)
+pub fn ws_only_name(name: &[u8]) -> bool {
+    String::from_utf8_lossy(name).to_uppercase().split_whitespace().next().is_none()
+}
+
 fn op_line(cfg: &Cfg, segs: &[Vec<u8>]) -> String {
     let s: Vec<String> = segs.iter().map(|s| hex(s)).collect();
-    format!("C {} {} {} {} {} {}", cfg.min_pipeline, cfg.batch_threshold, header_len(), cfg.read_size, cfg.max_buffer, s.join(","))
+    format!("C {} {} {} {} {} {}", cfg.min_pipeline, cfg.batch_threshold, hl_token(), cfg.read_size, cfg.max_buffer, s.join(","))
 }
 
 // ---------------------------------------------------------------- generators
@@ -705,6 +736,19 @@ fn check_wellformed(cx: &mut Cx, cfg: &Cfg, cmds: &[Vec<Vec<u8>>], segs: &[Vec<u
         cx.out.violation("C04:overflow:spurious", "the connection answered -ERR buffer overflow and closed although the unparsed bytes plus the bytes read never exceeded max_buffer_size", ov_replay("no overflow error: one reply per command"));
         return;
     }
+    // NOTHING IS WITHHELD WHILE THE CLIENT WAITS: whenever the handler asks for more input, every
+    // command that is complete in the bytes delivered so far has been answered on the wire (a
+    // client that sends a pipeline and waits for all replies before sending more must get them)
+    for (delivered, wlen) in &r.marks {
+        let complete = frame_ends.iter().filter(|e| **e <= *delivered).count();
+        let got = decode_replies(&r.written[..(*wlen).min(r.written.len())]).0.len();
+        if got < complete {
+            cx.out.violation("C04:reply-withheld:until-more-input", &format!("the handler asked for more input after {} bytes ({} complete commands) with only {} replies on the wire: the missing replies are stranded until new bytes arrive — a client that waits for them waits for ever", delivered, complete, got),
+                replay(&format!("{} replies written before the next read", complete), ""));
+            break;
+        }
+    }
+    cx.out.count(&format!("wf:depth={}", match cmds.len() { 0..=12 => "1-12", 13..=127 => "13-127", 128..=129 => "128-129", 130..=300 => "130-300", 301..=1024 => "301-1024", _ => "1025+" }));
     // twin: every command in its own segment, batching off
     let twin_segs: Vec<Vec<u8>> = cmds.iter().map(|c| frame(&c.iter().map(|a| &a[..]).collect::<Vec<_>>())).collect();
     let t = cx.runner.run(&twin_cfg, &twin_segs);
@@ -719,7 +763,11 @@ fn check_wellformed(cx: &mut Cx, cfg: &Cfg, cmds: &[Vec<Vec<u8>>], segs: &[Vec<u
 }
 
 fn gen_pipeline(rng: &mut Rng) -> (Vec<Vec<Vec<u8>>>, Vec<u8>, Vec<usize>) {
-    let depth = *rng.pick(&[1u64, 2, 2, 3, 5, 6, 7, 12]);
+    let mut depth = *rng.pick(&[1u64, 2, 2, 3, 5, 6, 7, 12]);
+    if rng.chance(1, 40) {
+        // very deep pipelines (internal batch / drain bounds, several reads of read_size)
+        depth = *rng.pick(&[64u64, 127, 128, 129, 130, 200, 255, 256, 257, 300, 513, 1000, 1025, 2049]);
+    }
     let mut in_tx = false;
     let mut cmds = Vec::new();
     // runs of GETs / SETs (what the collectors look for), mixed with other commands
@@ -866,6 +914,426 @@ fn check_malformed(cx: &mut Cx, cfg: &Cfg, cmds: &[Vec<Vec<u8>>], bad: &[u8], hi
     }
 }
 
+// ---------------------------------------------------------------- every arm of the handler (class 1)
+
+/// the source tree this binary was BUILT against (the `redis-sim` path dependency of harness/Cargo.toml)
+fn repo_dir() -> String {
+    const MANIFEST: &str = include_str!("../Cargo.toml");
+    for line in MANIFEST.lines() {
+        if line.trim_start().starts_with("redis-sim") {
+            if let Some(i) = line.find("path = \"") {
+                let rest = &line[i + 8..];
+                if let Some(j) = rest.find('"') {
+                    return rest[..j].to_string();
+                }
+            }
+        }
+    }
+    "/repo".to_string()
+}
+
+/// (frames sent outside MULTI, frames sent inside MULTI) that reach the arm of `try_execute_command`
+/// matching `Command::<variant>`; `None` = the harness does not know the variant
+fn arm_drivers(variant: &str) -> Option<Vec<Vec<&'static [u8]>>> {
+    Some(match variant {
+        "Multi" => vec![vec![b"MULTI"]],
+        "Exec" => vec![vec![b"EXEC"]],
+        "Discard" => vec![vec![b"DISCARD"]],
+        "Watch" => vec![vec![b"WATCH", b"k"], vec![b"WATCH", b"k", b"key:2"]],
+        "Unwatch" => vec![vec![b"UNWATCH"]],
+        "Auth" => vec![vec![b"AUTH", b"pw"], vec![b"AUTH", b"default", b"pw"]],
+        "AclWhoami" => vec![vec![b"ACL", b"WHOAMI"]],
+        "AclList" => vec![vec![b"ACL", b"LIST"]],
+        "AclUsers" => vec![vec![b"ACL", b"USERS"]],
+        "AclGetUser" => vec![vec![b"ACL", b"GETUSER", b"default"], vec![b"ACL", b"GETUSER", b"no-such-user"]],
+        "AclSetUser" => vec![vec![b"ACL", b"SETUSER", b"bob", b"on", b"nopass", b"~*", b"+@all"]],
+        "AclDelUser" => vec![vec![b"ACL", b"DELUSER", b"bob"]],
+        "AclCat" => vec![vec![b"ACL", b"CAT"], vec![b"ACL", b"CAT", b"string"]],
+        "AclGenPass" => vec![vec![b"ACL", b"GENPASS"], vec![b"ACL", b"GENPASS", b"32"]],
+        "AclDryrun" => vec![vec![b"ACL", b"DRYRUN", b"default", b"GET", b"k"]],
+        "AclLog" => vec![vec![b"ACL", b"LOG"], vec![b"ACL", b"LOG", b"2"]],
+        "AclLogReset" => vec![vec![b"ACL", b"LOG", b"RESET"]],
+        // stubs and genuinely unknown names: see STUBS / the unknown-name frames of `any_command`
+        "Unknown" => vec![vec![b"FOO", b"bar"], vec![b"HELLO"]],
+        // the `&Command::Get(key.clone())` of the WATCH snapshot / check is a constructor, not an arm
+        "Get" => vec![vec![b"GET", b"k"]],
+        _ => return None,
+    })
+}
+
+/// every name `is_stub_command` / `handle_stub_command` mention, with a frame that reaches it
+const STUBS: &[(&str, &[&[u8]])] = &[
+    ("PUBLISH", &[b"PUBLISH", b"ch", b"m"]), ("SPUBLISH", &[b"SPUBLISH", b"ch", b"m"]), ("SUBSCRIBE", &[b"SUBSCRIBE", b"ch"]), ("SSUBSCRIBE", &[b"SSUBSCRIBE", b"ch"]),
+    ("PSUBSCRIBE", &[b"PSUBSCRIBE", b"p*"]), ("UNSUBSCRIBE", &[b"UNSUBSCRIBE"]), ("SUNSUBSCRIBE", &[b"SUNSUBSCRIBE"]), ("PUNSUBSCRIBE", &[b"PUNSUBSCRIBE"]),
+    ("HELLO", &[b"HELLO", b"3"]), ("RESET", &[b"RESET"]),
+    ("CLIENT ", &[b"CLIENT", b"SETNAME", b"x"]), ("LIST", &[b"CLIENT", b"LIST"]), ("KILL", &[b"CLIENT", b"KILL", b"1.2.3.4:5"]), ("NO-EVICT", &[b"CLIENT", b"NO-EVICT", b"on"]),
+    ("CONFIG ", &[b"CONFIG", b"REWRITE"]), ("RESETSTAT", &[b"CONFIG", b"RESETSTAT"]), ("SET", &[b"CONFIG", b"SET", b"maxmemory", b"1"]), ("GET", &[b"CONFIG", b"GET", b"maxmemory"]),
+    ("ACL ", &[b"ACL", b"NOSUCHSUB"]), ("HELP", &[b"ACL", b"HELP"]), ("LOAD", &[b"ACL", b"LOAD"]), ("SAVE", &[b"ACL", b"SAVE"]),
+];
+
+/// how every function of connection_optimized.rs is accounted for
+fn fn_coverage(name: &str) -> Option<&'static str> {
+    Some(match name {
+        "parse_usize_fast" => "driven: the recognisers' length fields (look-alike generator: '+', leading zeros, 20 digits, empty, junk); feature opt-atoi-parse is off",
+        "default" | "from_perf_config" => "driven: every case builds its ConnectionConfig through PerformanceConfig::validate + from_perf_config; Default's values are the `default_like` configuration",
+        "new" => "driven: hook H1 / H1b constructs the handler for every case (buffers acquired from the shared pool; client_cert_cn = None: TLS is a feature that is off)",
+        "run" => "driven: every case; arms Ok(0) (EOF), Ok(n), Err (W ops: read error at a generated read), overflow guard, parse error, flush / write failure (W ops)",
+        "try_execute_command" => "driven: every arm by the K cases (enumerated from the source: arm_drivers)",
+        "execute_connection_level" => "driven: connection-level commands queued in MULTI and replayed by EXEC (K cases)",
+        "user_has_unrestricted_keys" | "check_acl_permission" => "driven with the default user only (feature acl off: AclManager is the permissive stub)",
+        "handle_auth" | "handle_acl_whoami" | "handle_acl_list" | "handle_acl_users" | "handle_acl_getuser" | "handle_acl_setuser" | "handle_acl_deluser" | "handle_acl_cat"
+        | "handle_acl_genpass" | "handle_acl_dryrun" | "handle_acl_log" | "handle_acl_log_reset" => "driven: K cases (one reply each, equal to the reply when sent alone; ACL GENPASS by kind only)",
+        "is_stub_command" | "handle_stub_command" => "driven: every literal of both functions by the K cases (STUBS, enumerated from the source)",
+        "collect_get_keys" | "collect_set_pairs" | "try_fast_path" | "try_fast_get" | "try_fast_set" => "driven: well-formed GET / SET runs around both thresholds (dead for them), the look-alike class and its near misses (alive), cut at every byte",
+        "encode_resp_into" | "encode_error_into" => "driven: every reply; byte-exact in the W ops; on arbitrary values through hook H1c (C15)",
+        "verif_encode_reply" | "verif_encode_error" => "hook H1c itself",
+        "resp_values_equal" => "WATCH comparison: C05's subject; reached by the K cases' WATCH … EXEC",
+        _ => return None,
+    })
+}
+
+fn scan_fail(cx: &mut Cx, what: &str) {
+    cx.out.violation("C04:coverage:source-scan-failed", &format!("the scan of src/production/connection_optimized.rs found no {}: the enumeration of what must be driven is empty", what), json!({"file": format!("{}/src/production/connection_optimized.rs", repo_dir())}));
+}
+
+/// ENUMERATE FROM THE SOURCE the binary was built against: arms of try_execute_command, stub names,
+/// functions, result enums, ConnectionConfig fields — everything must be known to the harness
+fn source_enumeration(cx: &mut Cx) -> Vec<String> {
+    let path = format!("{}/src/production/connection_optimized.rs", repo_dir());
+    let src = match std::fs::read_to_string(&path) {
+        Ok(s) => s,
+        Err(_) => {
+            scan_fail(cx, "file");
+            return vec![];
+        }
+    };
+    let mut table = serde_json::Map::new();
+    // 1. arms of try_execute_command
+    let body = src.split("async fn try_execute_command").nth(1).and_then(|r| r.split("fn execute_connection_level").next()).unwrap_or("");
+    let mut variants: Vec<String> = Vec::new();
+    for line in body.lines() {
+        let mut rest = line;
+        while let Some(i) = rest.find("Command::") {
+            let after = &rest[i + 9..];
+            let name: String = after.chars().take_while(|c| c.is_alphanumeric()).collect();
+            if name.chars().next().map(|c| c.is_uppercase()).unwrap_or(false) && !variants.contains(&name) {
+                variants.push(name);
+            }
+            rest = after;
+        }
+    }
+    if variants.len() < 10 {
+        scan_fail(cx, "arms of try_execute_command");
+    }
+    for v in &variants {
+        match arm_drivers(v) {
+            Some(fr) => {
+                table.insert(format!("arm Command::{}", v), json!(format!("driven by {} frame(s), outside and inside MULTI", fr.len())));
+            }
+            None => {
+                table.insert(format!("arm Command::{}", v), json!("UNACCOUNTED"));
+                cx.out.violation(&format!("C04:coverage:connection-arm-not-driven:{}", v), "try_execute_command matches on a Command variant for which the harness has no driving frame (harness/src/c04.rs arm_drivers)", json!({"variant": v}));
+            }
+        }
+    }
+    // 2. literals of is_stub_command / handle_stub_command
+    let stub_body = src.split("fn is_stub_command").nth(1).and_then(|r| r.split("fn collect_get_keys").next()).unwrap_or("");
+    let mut lits: Vec<String> = Vec::new();
+    for line in stub_body.lines() {
+        let t = line.trim_start();
+        if t.starts_with("//") || t.contains("RespValue::") || t.contains("format!(") {
+            continue;
+        }
+        let mut rest = t;
+        while let Some(i) = rest.find('"') {
+            let after = &rest[i + 1..];
+            if let Some(j) = after.find('"') {
+                let lit = &after[..j];
+                if !lit.is_empty() && lit.chars().all(|c| c.is_ascii_uppercase() || c == ' ' || c == '-') && !lits.contains(&lit.to_string()) {
+                    lits.push(lit.to_string());
+                }
+                rest = &after[j + 1..];
+            } else {
+                break;
+            }
+        }
+    }
+    if lits.len() < 10 {
+        scan_fail(cx, "stub command names");
+    }
+    for l in &lits {
+        if STUBS.iter().any(|(n, _)| n == l) {
+            table.insert(format!("stub {:?}", l), json!("driven (K cases)"));
+        } else {
+            table.insert(format!("stub {:?}", l), json!("UNACCOUNTED"));
+            cx.out.violation(&format!("C04:coverage:stub-not-driven:{}", l.trim()), "is_stub_command / handle_stub_command mention a name for which the harness has no frame (harness/src/c04.rs STUBS)", json!({"literal": l}));
+        }
+    }
+    // 3. functions
+    let mut fns: Vec<String> = Vec::new();
+    for line in src.lines() {
+        let t = line.trim_start();
+        for pre in ["pub async fn ", "async fn ", "pub fn ", "fn "] {
+            if let Some(r) = t.strip_prefix(pre) {
+                let name: String = r.chars().take_while(|c| c.is_alphanumeric() || *c == '_').collect();
+                if !name.is_empty() && !fns.contains(&name) {
+                    fns.push(name);
+                }
+                break;
+            }
+        }
+    }
+    if fns.len() < 20 {
+        scan_fail(cx, "functions");
+    }
+    for f in &fns {
+        match fn_coverage(f) {
+            Some(c) => {
+                table.insert(format!("fn {}", f), json!(c));
+            }
+            None => {
+                table.insert(format!("fn {}", f), json!("UNACCOUNTED"));
+                cx.out.violation(&format!("C04:coverage:fn-not-accounted:{}", f), "a function of connection_optimized.rs is neither driven nor listed with the reason why not (harness/src/c04.rs fn_coverage)", json!({"fn": f}));
+            }
+        }
+    }
+    // 4. result enums and the arms of the read
+    for (en, want) in [("enum CommandResult", &["Executed", "NeedMoreData", "ParseError"][..]), ("enum FastPathResult", &["Handled", "NeedMoreData", "NotFastPath"][..])] {
+        let b = src.split(en).nth(1).and_then(|r| r.split('}').next()).unwrap_or("");
+        let vs: Vec<String> = b.lines().map(|l| l.trim()).filter(|l| !l.starts_with("//") && !l.starts_with('{') && !l.is_empty()).map(|l| l.chars().take_while(|c| c.is_alphanumeric()).collect::<String>()).filter(|s| !s.is_empty()).collect();
+        if vs.is_empty() {
+            scan_fail(cx, en);
+        }
+        for v in vs {
+            if want.contains(&v.as_str()) {
+                table.insert(format!("{}::{}", en, v), json!("modelled (Recog / seqLoop outcomes) and driven"));
+            } else {
+                table.insert(format!("{}::{}", en, v), json!("UNACCOUNTED"));
+                cx.out.violation(&format!("C04:coverage:result-variant-not-modelled:{}", v), "a result variant of the handler's command step is not in the model (Model/Conn.lean Recog / seqLoop)", json!({"enum": en, "variant": v}));
+            }
+        }
+    }
+    // 5. ConnectionConfig fields are generated input
+    let cfgb = src.split("pub struct ConnectionConfig").nth(1).and_then(|r| r.split('}').next()).unwrap_or("");
+    let fields: Vec<String> = cfgb.lines().filter_map(|l| l.trim().strip_prefix("pub ")).map(|l| l.chars().take_while(|c| c.is_alphanumeric() || *c == '_').collect()).collect();
+    if fields.is_empty() {
+        scan_fail(cx, "ConnectionConfig fields");
+    }
+    for f in fields {
+        if ["max_buffer_size", "read_buffer_size", "min_pipeline_buffer", "batch_threshold"].contains(&f.as_str()) {
+            table.insert(format!("ConnectionConfig::{}", f), json!("generated input incl. legal extremes (config())"));
+        } else {
+            table.insert(format!("ConnectionConfig::{}", f), json!("UNACCOUNTED"));
+            cx.out.violation(&format!("C04:coverage:config-field-not-generated:{}", f), "ConnectionConfig has a field the harness does not generate and the model does not have", json!({"field": f}));
+        }
+    }
+    cx.out.extra.insert("source_coverage(derived from connection_optimized.rs at run time)".into(), serde_json::Value::Object(table));
+    variants
+}
+
+/// any well-formed command the server knows or does not know: the pool of the K cases
+fn any_command(rng: &mut Rng, in_tx: &mut bool, variants: &[String]) -> Vec<Vec<u8>> {
+    let own = |f: &[&[u8]]| f.iter().map(|a| a.to_vec()).collect::<Vec<Vec<u8>>>();
+    match rng.below(12) {
+        0..=2 if !variants.is_empty() => {
+            // an arm of try_execute_command
+            let v = rng.pick(variants).clone();
+            let fr = arm_drivers(&v).unwrap_or_else(|| vec![vec![b"PING"]]);
+            let f = own(&fr[rng.below(fr.len() as u64) as usize]);
+            let up = String::from_utf8_lossy(&f[0]).to_uppercase();
+            if up == "MULTI" {
+                if *in_tx {
+                    // nested MULTI: an error, the transaction goes on
+                }
+                *in_tx = true;
+            } else if up == "EXEC" || up == "DISCARD" {
+                *in_tx = false;
+            }
+            f
+        }
+        3..=4 => own(rng.pick(STUBS).1),
+        5 => own(*rng.pick(&[&[&b"GET"[..]][..], &[b"SET", b"k"], &[b"GET", b"a", b"b"], &[b"INCR"], &[b"EXPIRE", b"k", b"x"], &[b"SET", b"k", b"v", b"EX", b"0"]])),
+        6 => own(*rng.pick(&[&[&b"INCR"[..], b"n"][..], &[b"DEL", b"k", b"key:2"], &[b"RPUSH", b"l", b"a", b"b"], &[b"LRANGE", b"l", b"0", b"-1"], &[b"HSET", b"h", b"f", b"1"], &[b"HGETALL", b"h"],
+            &[b"EXISTS", b"k"], &[b"MGET", b"k", b"nokey"], &[b"TYPE", b"l"], &[b"APPEND", b"k", b"x"], &[b"STRLEN", b"k"], &[b"DBSIZE"], &[b"EVAL", b"return {1,{2,false},'x'}", b"0"]])),
+        7 => own(*rng.pick(&[&[&b"QUIT"[..]][..], &[b"SELECT", b"0"], &[b"COMMAND"], &[b"INFO"], &[b"FOO\r\n+INJECTED"], &[b""], &[b" \t"], &[b"\xc2\xa0", b"x"], &[b"\xff\xfe", b"x"], &[b"get"]])),
+        _ => {
+            let mut t = *in_tx;
+            let c = command(rng, &mut t);
+            *in_tx = t;
+            c
+        }
+    }
+}
+
+/// replies that legitimately differ from run to run: compared by kind only
+fn nondeterministic(cmd: &[Vec<u8>]) -> bool {
+    let up: Vec<String> = cmd.iter().take(2).map(|a| String::from_utf8_lossy(a).to_uppercase()).collect();
+    (up.len() == 2 && up[0] == "ACL" && (up[1] == "GENPASS" || up[1] == "LOG")) || up[0] == "INFO" || (up[0] == "CLIENT" && up.len() == 2 && (up[1] == "ID" || up[1] == "INFO"))
+}
+
+fn same_kind(a: &V, b: &V) -> bool {
+    std::mem::discriminant(a) == std::mem::discriminant(b)
+}
+
+/// EXEC arrays that contain the reply of a nondeterministic command: same length, same kinds
+fn same_shape(a: &V, b: &V) -> bool {
+    match (a, b) {
+        (V::A(x), V::A(y)) => x.len() == y.len() && x.iter().zip(y.iter()).all(|(p, q)| same_kind(p, q)),
+        _ => a == b,
+    }
+}
+
+/// K case: ANY well-formed commands (every arm of try_execute_command, every stub, arity errors,
+/// data commands of every reply kind).  Correspondence: the number of replies.  Oracle: one reply
+/// per command, each equal to the reply of the command when every command arrives alone.
+fn check_any(cx: &mut Cx, cfg: &Cfg, cmds: &[Vec<Vec<u8>>], segs: &[Vec<u8>], src: &str) {
+    let r = cx.runner.run(cfg, segs);
+    let (vals, rest) = decode_replies(&r.written);
+    let end = match &r.end { End::Eof => "eof", End::Crash(_) => "crash", End::Hang => "hang" };
+    let s: Vec<String> = segs.iter().map(|s| hex(s)).collect();
+    let op = format!("K {} {} {} {} {} {}", cfg.min_pipeline, cfg.batch_threshold, hl_token(), cfg.read_size, cfg.max_buffer, s.join(","));
+    cx.out.op(op.clone(), format!("n={} end={}{}", vals.len(), end, if rest > 0 { format!(" undecoded={}", rest) } else { String::new() }));
+    cx.out.case(&op, cmds.len() >= 2 && segs.len() >= 2);
+    for c in cmds {
+        let up = String::from_utf8_lossy(&c[0]).to_uppercase();
+        let key = if ["ACL", "CLIENT", "CONFIG"].contains(&up.as_str()) && c.len() > 1 { format!("{} {}", up, String::from_utf8_lossy(&c[1]).to_uppercase()) } else { up };
+        let key: String = key.chars().filter(|ch| ch.is_ascii_graphic() || *ch == ' ').take(24).collect();
+        cx.out.count(&format!("any:cmd:{}", key));
+    }
+    let shown: Vec<Vec<String>> = cmds.iter().map(|c| c.iter().map(|a| String::from_utf8_lossy(a).to_string()).collect()).collect();
+    let replay = |what: &str, twin: &str| json!({"op": op, "commands": shown, "observed": vals.iter().map(|v| v.show()).collect::<Vec<_>>(), "end": end, "expected": what, "alone": twin, "source": src});
+    if end != "eof" {
+        let m = if let End::Crash(m) = &r.end { m.clone() } else { "no progress for 10 s".to_string() };
+        // KNOWN CAUSE (C04:crash:whitespace-command-name): the first command OUTSIDE MULTI whose name has no
+        // non-white-space character panics check_acl_permission (`parts[0]` of an empty Vec).  Attributed only
+        // if such a command exists, the panic is an index panic, at most the commands before it were
+        // answered, and (./check, must_agree) the model of the current code predicts this very outcome.
+        let mut in_tx = false;
+        let mut culprit: Option<usize> = None;
+        for (i, c) in cmds.iter().enumerate() {
+            let up = String::from_utf8_lossy(&c[0]).to_uppercase();
+            if !in_tx && ws_only_name(&c[0]) {
+                culprit = Some(i);
+                break;
+            }
+            if up == "MULTI" && c.len() == 1 {
+                in_tx = true;
+            } else if (up == "EXEC" || up == "DISCARD") && c.len() == 1 {
+                in_tx = false;
+            }
+        }
+        match culprit {
+            Some(i) if end == "crash" && m.contains("index out of bounds") && vals.len() <= i && !name_guarded() => {
+                let sig = "C04:crash:whitespace-command-name";
+                let idx = cx.out.n_ops();
+                let e = cx.out.extra.entry("must_agree".to_string()).or_insert_with(|| json!([]));
+                e.as_array_mut().unwrap().push(json!([idx, sig]));
+                let mut rp = replay("an error reply (-ERR unknown command), then the replies to the following commands", "");
+                rp["culprit_command_index"] = json!(i);
+                rp["panic"] = json!(m);
+                rp["model_must_agree"] = json!(true);
+                cx.out.violation(sig, "a well-formed command whose name is empty or white space only, sent outside MULTI, panics the connection task in check_acl_permission (release profile: panic = abort, the server dies)", rp);
+            }
+            _ => cx.out.violation(&format!("C04:{}:well-formed-stream", end), &format!("the connection handler did not reach EOF on a well-formed pipeline: {}", m), replay("EOF", "")),
+        }
+        return;
+    }
+    let twin_cfg = Cfg { min_pipeline: 1 << 40, batch_threshold: 1 << 20, read_size: 8192, max_buffer: 1_000_000 };
+    let t = cx.runner.run(&twin_cfg, &cmd_frames(cmds));
+    let (tvals, _) = decode_replies(&t.written);
+    let tline = tvals.iter().map(|v| v.show()).collect::<Vec<_>>().join(" ; ");
+    if vals.len() != cmds.len() || rest != 0 {
+        let class = if vals.len() < cmds.len() { "missing-reply" } else { "extra-reply" };
+        cx.out.violation(&format!("C04:reply-count:{}", class), &format!("{} commands, {} replies ({} undecodable bytes)", cmds.len(), vals.len(), rest), replay("one reply per command", &tline));
+        return;
+    }
+    let nd_any = cmds.iter().any(|c| nondeterministic(c));
+    for i in 0..vals.len() {
+        let is_exec = cmds[i].len() == 1 && cmds[i][0].eq_ignore_ascii_case(b"EXEC");
+        let ok = if nondeterministic(&cmds[i]) {
+            tvals.get(i).map(|t| same_kind(t, &vals[i])).unwrap_or(false)
+        } else if nd_any && is_exec {
+            tvals.get(i).map(|t| same_shape(t, &vals[i])).unwrap_or(false)
+        } else {
+            tvals.get(i) == Some(&vals[i])
+        };
+        if !ok {
+            cx.out.violation("C04:reply-differs-from-alone", &format!("reply {} ({}) differs from the reply the command gets when every command is sent alone", i, shown[i].join(" ")), replay("replies equal to one-at-a-time replies", &tline));
+            return;
+        }
+    }
+}
+
+fn any_case(cx: &mut Cx, rng: &mut Rng, variants: &[String]) {
+    let mut cfg = config(rng);
+    cfg.max_buffer = 1_000_000;
+    let depth = *rng.pick(&[1u64, 2, 3, 5, 8, 13]);
+    let mut in_tx = false;
+    let mut cmds = Vec::new();
+    for _ in 0..depth {
+        cmds.push(any_command(rng, &mut in_tx, variants));
+    }
+    if in_tx {
+        cmds.push(vec![b"EXEC".to_vec()]);
+    }
+    let mut stream = Vec::new();
+    let mut bounds = Vec::new();
+    for f in cmd_frames(&cmds) {
+        stream.extend(f);
+        bounds.push(stream.len());
+    }
+    bounds.pop();
+    let segs = segmentation(rng, &stream, &bounds);
+    check_any(cx, &cfg, &cmds, &segs, "random");
+}
+
+/// every arm and every stub once outside MULTI, once queued inside MULTI … EXEC, in one segment and
+/// one command per segment
+fn any_corpus(cx: &mut Cx, variants: &[String]) {
+    let d = Cfg::default_like();
+    // command names without a non-white-space character (must_reproduce witness of
+    // C04:crash:whitespace-command-name runs first), their near misses, outside and inside MULTI
+    for name in [&b""[..], b" ", b"\t", b"\r\n", b"  \x0b\x0c", b"\xc2\xa0", b"\xc2\x85", b"\xe3\x80\x80", b"\xe2\x80\x8a", b"\xe2\x80\x8b", b"\xe1\x9a\x80", b" a", b"\xff", b"\xe2\x80\xa8", b"\xe2\x81\x9f", b"\xe2\x80", b" \xc2"] {
+        let cmds = vec![vec![b"PING".to_vec()], vec![name.to_vec()], vec![b"PING".to_vec()]];
+        check_any(cx, &d, &cmds, &cmd_frames(&cmds), "corpus:ws-name");
+        check_any(cx, &d, &cmds, &[cmd_frames(&cmds).concat()], "corpus:ws-name");
+        let cmds = vec![vec![b"PING".to_vec()], vec![name.to_vec(), b"arg".to_vec()], vec![b"PING".to_vec()]];
+        check_any(cx, &d, &cmds, &cmd_frames(&cmds), "corpus:ws-name-arg");
+        let cmds = vec![vec![b"MULTI".to_vec()], vec![name.to_vec()], vec![b"EXEC".to_vec()], vec![b"PING".to_vec()]];
+        check_any(cx, &d, &cmds, &cmd_frames(&cmds), "corpus:ws-name-in-multi");
+    }
+    let own = |f: &[&[u8]]| f.iter().map(|a| a.to_vec()).collect::<Vec<Vec<u8>>>();
+    let mut singles: Vec<Vec<Vec<u8>>> = Vec::new();
+    for v in variants {
+        for f in arm_drivers(v).unwrap_or_default() {
+            let up = String::from_utf8_lossy(f[0]).to_uppercase();
+            if up != "MULTI" && up != "EXEC" && up != "DISCARD" {
+                singles.push(own(&f));
+            }
+        }
+    }
+    for (_, f) in STUBS {
+        singles.push(own(f));
+    }
+    for chunk in singles.chunks(6) {
+        let outside: Vec<Vec<Vec<u8>>> = chunk.to_vec();
+        let mut inside: Vec<Vec<Vec<u8>>> = vec![vec![b"MULTI".to_vec()]];
+        inside.extend(chunk.iter().cloned());
+        inside.push(vec![b"MULTI".to_vec()]);
+        inside.push(vec![b"EXEC".to_vec()]);
+        inside.push(vec![b"EXEC".to_vec()]);
+        inside.push(vec![b"DISCARD".to_vec()]);
+        inside.push(vec![b"MULTI".to_vec()]);
+        inside.push(vec![b"PING".to_vec()]);
+        inside.push(vec![b"DISCARD".to_vec()]);
+        for cmds in [outside, inside] {
+            let frames = cmd_frames(&cmds);
+            check_any(cx, &d, &cmds, &[frames.concat()], "corpus:arms");
+            check_any(cx, &d, &cmds, &frames, "corpus:arms");
+        }
+    }
+}
+
 // ---------------------------------------------------------------- the write side (Model/ConnWrite.lean)
 
 fn script_text(script: &[WEv]) -> String {
@@ -877,7 +1345,7 @@ fn script_text(script: &[WEv]) -> String {
 
 fn wop_line(cfg: &Cfg, segs: &[Vec<u8>], script: &[WEv], stop: Option<usize>) -> String {
     let s: Vec<String> = segs.iter().filter(|s| !s.is_empty()).map(|s| hex(s)).collect();
-    format!("W {} {} {} {} {} {} {} {}", cfg.min_pipeline, cfg.batch_threshold, header_len(), cfg.read_size, cfg.max_buffer, s.join(","), script_text(script),
+    format!("W {} {} {} {} {} {} {} {}", cfg.min_pipeline, cfg.batch_threshold, hl_token(), cfg.read_size, cfg.max_buffer, s.join(","), script_text(script),
         stop.map(|n| n.to_string()).unwrap_or("-".into()))
 }
 
@@ -1083,7 +1551,7 @@ fn pooled_op(cfg: &Cfg, pool_size: usize, conns: &[Conn]) -> String {
             format!("{}/{}", if segs.is_empty() { "-".to_string() } else { segs.join(",") }, c.fail.map(|f| f.to_string()).unwrap_or("-".into()))
         })
         .collect();
-    format!("P {} {} {} {} {} {} {}", cfg.min_pipeline, cfg.batch_threshold, header_len(), cfg.read_size, cfg.max_buffer, pool_size, cs.join(";"))
+    format!("P {} {} {} {} {} {} {}", cfg.min_pipeline, cfg.batch_threshold, hl_token(), cfg.read_size, cfg.max_buffer, pool_size, cs.join(";"))
 }
 
 /// a sequence of connections served one after the other by ONE server-wide buffer pool (each on a
@@ -1213,6 +1681,34 @@ fn overflow_corpus(cx: &mut Cx) {
     }
 }
 
+/// VERY DEEP pipelines delivered in ONE read (read_size above the stream length), in reads of 8192,
+/// and one command per segment: every internal bound on commands per read / per flush is crossed
+fn deep_corpus(cx: &mut Cx) {
+    for depth in [64usize, 127, 128, 129, 130, 200, 256, 257, 300, 512, 1000, 1025, 1500, 4097] {
+        for mode in 0..3 {
+            let cmds: Vec<Vec<Vec<u8>>> = (0..depth).map(|i| match mode {
+                0 => vec![b"PING".to_vec()],
+                1 => if i % 2 == 0 { vec![b"SET".to_vec(), KEYS[i % 3].to_vec(), format!("v{}", i).into_bytes()] } else { vec![b"GET".to_vec(), KEYS[(i / 2) % 3].to_vec()] },
+                _ => vec![b"GET".to_vec(), KEYS[i % 3].to_vec()],
+            }).collect();
+            if mode > 0 && depth > 1100 {
+                continue;
+            }
+            let frames = cmd_frames(&cmds);
+            let stream: Vec<u8> = frames.concat();
+            let one_read = Cfg { min_pipeline: 60, batch_threshold: 2, read_size: 1 << 20, max_buffer: 1 << 24 };
+            check_wellformed(cx, &one_read, &cmds, &[stream.clone()], "corpus:deep:one-read");
+            if depth <= 300 || mode == 0 {
+                check_wellformed(cx, &Cfg::default_like(), &cmds, &[stream.clone()], "corpus:deep:reads-of-8192");
+            }
+            if depth <= 257 {
+                let no_batch = Cfg { min_pipeline: 1 << 40, batch_threshold: 6, read_size: 1 << 20, max_buffer: 1 << 24 };
+                check_wellformed(cx, &no_batch, &cmds, &[stream.clone()], "corpus:deep:gate-closed");
+            }
+        }
+    }
+}
+
 fn fixed_corpus(cx: &mut Cx) {
     let d = Cfg::default_like();
     let ping = frame(&[b"PING"]);
@@ -1262,9 +1758,12 @@ fn run_inner(a: &Args) {
     let mut cx = Cx { out: Out::new(&a.out), runner: Runner::new() };
     let mut rng = Rng::new(a.seed);
     fixed_corpus(&mut cx);
+    deep_corpus(&mut cx);
     overflow_corpus(&mut cx);
     pooled_corpus(&mut cx);
     write_corpus(&mut cx);
+    let variants = source_enumeration(&mut cx);
+    any_corpus(&mut cx, &variants);
     // deterministic sweep: GET/SET runs of depth 1..7 around both thresholds, whole / per-command / 1-byte
     for depth in 1..=7usize {
         for mode in 0..2 {
@@ -1292,6 +1791,10 @@ fn run_inner(a: &Args) {
         }
         if done % 6 == 3 {
             write_case(&mut cx, &mut rng);
+            continue;
+        }
+        if done % 12 == 1 {
+            any_case(&mut cx, &mut rng, &variants);
             continue;
         }
         let cfg = config(&mut rng);
